@@ -1,6 +1,198 @@
-"""Exponent atoms for stabilised arithmetic (filled in with C16)."""
+"""Exponent atoms for the stabilised (mantissa, power-of-two exponent) arithmetic.
+
+`int(floor(log2(v)))` becomes an integer-typed exponent atom p with a positive
+real *scale variable* E_p standing for 2**p and the contract E_p <= v < 2 E_p.
+`2.**p` evaluates to E_p, sums of exponents to products of scales, p/2 and p/d
+to root atoms.  (With an uninterpreted exp2 z3 answers unknown; with scale
+variables the same claims are decided in milliseconds.)  That E_p is an exact
+power of two is not encoded: every claim proved holds for any positive scale
+satisfying the contract, a superset.
+"""
+from fractions import Fraction
+
+from .sym import Sym, SymExpBase, sign_formula
+from .poly import Poly, to_q
+from .formula import Cmp
 from .engine import Unmodelled
 
 
+class Log2(SymExpBase):
+    """log2 of a positive symbolic value; only floor() of it is modelled."""
+    __slots__ = ('ctx', 'x')
+
+    def __init__(self, ctx, x):
+        self.ctx = ctx
+        self.x = x
+
+    def floor(self):
+        return exp_atom(self.ctx, self.x)
+
+    __floor__ = floor
+
+
+class SymExp(SymExpBase):
+    """c + sum_i k_i p_i  with exponent atoms p_i (scale variables E_i = 2**p_i)."""
+    __slots__ = ('ctx', 'c', 'terms')
+
+    def __init__(self, ctx, c, terms):
+        self.ctx = ctx
+        self.c = Fraction(c)
+        self.terms = {k: v for k, v in terms.items() if v}
+
+    # ---- linear arithmetic ----
+    def _coerce(self, o):
+        if isinstance(o, SymExp):
+            return o
+        if isinstance(o, Sym):
+            c = o.const_value()
+            if c is None:
+                raise Unmodelled('exponent mixed with a symbolic real')
+            return SymExp(self.ctx, c, {})
+        return SymExp(self.ctx, to_q(o), {})
+
+    def __add__(self, o):
+        o = self._coerce(o)
+        t = dict(self.terms)
+        for k, v in o.terms.items():
+            t[k] = t.get(k, 0) + v
+        return SymExp(self.ctx, self.c + o.c, t)
+
+    __radd__ = __add__
+
+    def __neg__(self):
+        return SymExp(self.ctx, -self.c, {k: -v for k, v in self.terms.items()})
+
+    def __sub__(self, o):
+        return self + (-self._coerce(o))
+
+    def __rsub__(self, o):
+        return self._coerce(o) + (-self)
+
+    def __mul__(self, k):
+        k = Fraction(to_q(k))
+        return SymExp(self.ctx, self.c * k, {a: v * k for a, v in self.terms.items()})
+
+    __rmul__ = __mul__
+
+    def __truediv__(self, k):
+        return self * (Fraction(1) / Fraction(to_q(k)))
+
+    def to_int(self):
+        return self
+
+    def floor(self):
+        if self.c.denominator == 1 and all(Fraction(v).denominator == 1 for v in self.terms.values()):
+            return self
+        raise Unmodelled('floor of a fractional exponent')
+
+    def item(self):
+        return self
+
+    def is_const(self):
+        return not self.terms
+
+    # ---- 2 ** self ----
+    def scale(self):
+        """2**self as a Sym (product of scale variables / root atoms)."""
+        ctx = self.ctx
+        c = self.c
+        ip = c.numerator // c.denominator
+        fp = c - ip
+        r = Sym.const(Fraction(2) ** ip)
+        if fp:
+            r = r * (ctx.root(Sym.const(2), fp.denominator) ** fp.numerator)
+        for a, k in self.terms.items():
+            k = Fraction(k)
+            E = ctx.exp_scales[a]
+            ip = k.numerator // k.denominator
+            fp = k - ip
+            if ip:
+                r = r * (E ** ip)
+            if fp:
+                r = r * (ctx.root(E, fp.denominator) ** fp.numerator)
+        return r
+
+    def __rpow__(self, b):
+        if to_q(b) != 2:
+            raise Unmodelled('power with base other than 2 and symbolic exponent')
+        return self.scale()
+
+    # ---- comparisons: monotonicity of 2**x ----
+    def _cmp(self, o, op):
+        d = self - self._coerce(o)
+        if not d.terms:
+            v = {'<': d.c < 0, '<=': d.c <= 0, '>': d.c > 0, '>=': d.c >= 0,
+                 '==': d.c == 0, '!=': d.c != 0}[op]
+            return v
+        s = d.scale()
+        one = Sym.const(1)
+        return {'<': s < one, '<=': s <= one, '>': s > one, '>=': s >= one,
+                '==': s == one, '!=': s != one}[op]
+
+    def __lt__(self, o):
+        return self._cmp(o, '<')
+
+    def __le__(self, o):
+        return self._cmp(o, '<=')
+
+    def __gt__(self, o):
+        return self._cmp(o, '>')
+
+    def __ge__(self, o):
+        return self._cmp(o, '>=')
+
+    def __eq__(self, o):
+        if o is None:
+            return False
+        return self._cmp(o, '==')
+
+    def __ne__(self, o):
+        if o is None:
+            return True
+        return self._cmp(o, '!=')
+
+    def __hash__(self):
+        return hash((self.c, tuple(sorted(self.terms.items()))))
+
+    def __repr__(self):
+        return f'SymExp({self.c} + {self.terms})'
+
+
+def exp_atom(ctx, v):
+    """p = floor(log2(v)) for v > 0: fresh scale E with E <= v < 2E."""
+    key = ('expatom', v.key())
+    r = ctx.atom_cache.get(key)
+    if r is not None:
+        return r
+    c = v.const_value()
+    if c is not None:
+        if c <= 0:
+            ctx.domain_error('log2', v)
+        import math
+        p = math.floor(math.log2(c))
+        while Fraction(2) ** p > c:
+            p -= 1
+        while Fraction(2) ** (p + 1) <= c:
+            p += 1
+        r = SymExp(ctx, p, {})
+        ctx.atom_cache[key] = r
+        return r
+    # obligation: argument of the logarithm is positive
+    kk = ('pos', v.key())
+    if kk not in ctx.nonneg_known:
+        ctx.nonneg_known.add(kk)
+        ctx._obligation('log_of_nonpositive', sign_formula(v, '<='), repr(v)[:200])
+    E = ctx.fresh_real('E')
+    (ev,) = E.n.vars()
+    scales = ctx.__dict__.setdefault('exp_scales', {})
+    aid = len(scales)
+    scales[aid] = E
+    ctx.var_sign[ev] = '+'
+    ctx.defs[ev] = [Cmp.make(E.n, '>'), sign_formula(E - v, '<='), sign_formula(v - E * 2, '<')]
+    r = SymExp(ctx, 0, {aid: 1})
+    ctx.atom_cache[key] = r
+    return r
+
+
 def log2(ctx, x):
-    raise Unmodelled('log2 of a symbolic value')
+    return Log2(ctx, x)
